@@ -82,11 +82,23 @@ Definition transform_coordinates (B : behaviour) (v : view) (cnt off : list Z) :
 Definition real_count (v : view) (cnt : list Z) : list Z :=
   match cnt with [] => v_count v | _ :: _ => cnt end.
 
+(** HDF5 computes the end of a hyperslab, start + count, in 64 bits as well: a selection whose end is
+    2^64 or more passes HDF5's own bound test and the transfer runs over the caller's buffer (observed:
+    heap-buffer-overflow inside H5Dread).  Only a request that slipped through a wrapped window test gets here. *)
+Fixpoint end_wraps (base cnt : list Z) : bool :=
+  match base, cnt with
+  | b :: base', c :: cnt' => (two64 <=? b + c) || end_wraps base' cnt'
+  | _, _ => false
+  end.
+
+Definition hdf5_wrap_why : string := "hyperslab end beyond 2^64: HDF5's bound test wraps around".
+
 (** DataView::ioRead with the array's own element type on an uncalibrated array:
     DataArray::getData -> DataArrayHDF5::read = [read_slab] (NDArr.v; argument order offset, count) *)
 Definition view_read (B : behaviour) (v : view) (a : arr) (cnt off : list Z) : res (list V) :=
   let rc := real_count v cnt in
-  bind (transform_coordinates B v rc off) (fun base => read_slab a base rc).
+  bind (transform_coordinates B v rc off) (fun base =>
+  if end_wraps base rc then UB hdf5_wrap_why else read_slab a base rc).
 
 (** DataView::ioWrite.  The caller's buffer holds real_count.nelms() elements (the API's precondition);
     [gen k] is its k-th element.  The buffer is materialised only when HDF5 accepts the transfer
@@ -94,6 +106,7 @@ Definition view_read (B : behaviour) (v : view) (a : arr) (cnt off : list Z) : r
 Definition view_write (B : behaviour) (v : view) (a : arr) (cnt off : list Z) (gen : nat -> V) : res arr :=
   let rc := real_count v cnt in
   bind (transform_coordinates B v rc off) (fun base =>
+  if end_wraps base rc then UB hdf5_wrap_why else
   bind (slab_sel (a_shape a) base rc) (fun sel =>
     if negb (xfer_ok (a_shape a) (fst sel) (snd sel) rc) then Err h5error
     else write_slab false a base rc (map gen (seq 0 (Z.to_nat (prod rc)))))).
